@@ -443,6 +443,51 @@ class BothDirections(Part):
         return res
 
 
+class WithAsNumbers(LinesPart):
+    name = "addresses_whose_parts_are_listed_as_numbers"
+    desc = "address tokens whose octets / decimal groups are listed AS numbers (and not parts of their images), with the AS-number feature on: replaced as a whole exactly as without it"
+
+    def cases(self):
+        return [{"k": 0}]
+
+    def run(self, case):
+        import io
+
+        from netconan.anonymize_files import FileAnonymizer
+
+        res = Res()
+        salt = "saltForTest"
+        ref = Ref(salt)
+        toks = ["10.174.1.1", "174.1.2.3", "1.2.3.174", "209.3.3.3", "2001:db8::1", "2001:3356:174::1", "::ffff:10.174.1.1", "8.8.4.4",
+                "100.64.7.9", "3356:0:0:1::2"]
+        lines = case.get("lines") or (["peer %s x" % t for t in toks] + [" ".join(toks)])
+        want = [ref.expected(ln) for ln in lines]
+        # listed numbers: every decimal part of an original token that occurs in no expected line
+        parts = sorted({p for t in toks for p in re.split(r"[.:]", t) if p.isdigit()}, key=lambda x: (len(x), x))
+        listed = [p for p in parts if not any(re.search(r"(?<!\d)%s(?!\d)" % p, w) for w in want)]
+        with seams_capture():
+            fa = FileAnonymizer(anon_pwd=False, anon_ip=True, salt=salt, as_numbers=list(listed), preserve_suffix_v4=0, preserve_suffix_v6=0)
+            out = io.StringIO()
+            fa.anonymize_io(io.StringIO("".join(x + "\n" for x in lines)), out)
+        got = out.getvalue().split("\n")[:-1]
+        res.count("listed_as_numbers", len(listed))
+        for ln, g, w in zip(lines, got, want):
+            res.evals += 1
+            res.nt(ln)
+            res.out(g == w)
+            if g != w:
+                res.violation("address-token-not-replaced-as-whole|with-as-numbers",
+                              "AS numbers %r listed: line %r -> %r, without the AS feature %r" % (listed, ln, g, w), {"k": 0, "lines": [ln]})
+        res.samples.append({"listed": listed, "lines": len(lines)})
+        return res
+
+
+def seams_capture():
+    from mc import seams
+
+    return seams.capture_logs()
+
+
 def parts(tier, seed):
     return [FixedPoints(tier, seed), ZeroRuns(tier, seed), V4Tokens(tier, seed), V6Tokens(tier, seed), V6Tails(tier, seed), Contexts(tier, seed),
-            Boundary(tier, seed), LongLines(tier, seed), Columns(tier, seed), BothDirections(tier, seed)]
+            Boundary(tier, seed), LongLines(tier, seed), Columns(tier, seed), BothDirections(tier, seed), WithAsNumbers(tier, seed)]
